@@ -324,6 +324,10 @@ func (b *bufferWriter) Write(buf []byte) (int, error) {
 
 // WriteHeader sets rw.Code.
 func (b *bufferWriter) WriteHeader(code int) {
+	if code >= 100 && code < 200 && code != http.StatusSwitchingProtocols {
+		// informational (e.g. 103 Early Hints): not the status of the buffered response
+		return
+	}
 	b.code = code
 }
 
